@@ -123,7 +123,14 @@ class CutWhile:
                 continue
         # the loop may not be entered at all from the state reached so far: then nothing is cut
         t0 = ip.eval(node.test, fr)
-        if (isinstance(t0, bool) and not t0) or (not isinstance(t0, bool) and hasattr(t0, 't') and not st.can(t0.t)):
+        from .sym import SBool, SInt
+        if isinstance(t0, SBool):
+            if not st.can(t0.t):
+                return
+        elif isinstance(t0, SInt):
+            if not st.can(t0.t != 0):
+                return
+        elif isinstance(t0, (bool, int)) and not t0:
             return
         for lab, goal, exact in _safe_inv(self.inv, ip, fr):
             st.oblige('%s#initiation:%s' % (tag, lab), goal, exact=exact)
